@@ -274,6 +274,11 @@ const TRIVIA: &[(&str, &str)] = &[
     ("comment continued by three backslashes, then by one", "# c \\\\\\\n , 1 \\\n | 2\n"),
     ("comment with operators and quotes", " # \" ( [ { | , if def \\( \n"),
     ("comment crlf", "# c\r\n"),
+    ("comment that is a single backslash", "#\\\n | error # still the comment\n"),
+    ("comment that is two backslashes", "#\\\\\n"),
+    ("comment of three backslashes, continuation line of one", "#\\\\\\\n , 1\n"),
+    ("continuation line that is only a backslash", "# c \\\n\\\n | error\n"),
+    ("continuation line that is empty", "# c \\\n\n"),
 ];
 
 const PROGRAMS: &[&str] = &[
